@@ -260,6 +260,22 @@ def riverCode (i : Nat) : Nat := absCode 3 i
 def variation (x y : Hist) : α :=
   variationOn RP.Gen.C12.equityBuckets (fun i => density x (riverCode i)) (fun i => density y (riverCode i))
 
+/-! ## `Metric::emd` : the entry point `Layer` uses -/
+
+/-- `Metric::emd(source, target)`: dispatch on the variant of `source.peek()` (its first key):
+    `Learned` ⇒ `Sinkhorn::from(..).minimize().cost()`, `Percent` ⇒ `Equity::variation`,
+    `Preflop` ⇒ `unreachable!`; an empty source ⇒ `peek` panics. No other path exists. -/
+def Metric.emd (T tol : α) (iters : Nat) (m : Metric α) (source target : Hist) : Option α :=
+  match source.counts with
+  | [] => none
+  | (a, _) :: _ =>
+    if variantOf a = 1 then
+      match minimize T tol iters m source target with
+      | none => none
+      | some s => cost m.distD T s
+    else if variantOf a = 0 then some (variation source target)
+    else none
+
 /-! ## Heuristic (greedy plan) -/
 
 /-- `Iterator::min_by(|a, b| cmp(a, b).unwrap())` : keeps the current element unless it is strictly
